@@ -18,15 +18,20 @@ Q_Shapes == { <<<<>>, "none">>, <<<<>>, "future">>, <<<<<<1, 1>>>>, "none">>, <<
               <<<<<<2, 5>>, <<4, 1>>>>, "future">> }
 Q_Bases == {L(m) : m \in {"empty", "small", "nested", "bigL_m1", "bigL_0", "bigL_p1"}}
            \cup {M0(m) : m \in {"empty", "small"}}
-           \cup {M(m, s[1], s[2]) : m \in {"empty", "small", "nested"}, s \in Q_Shapes}
+           \cup {M(m, s[1], s[2]) : m \in {"small", "nested"}, s \in Q_Shapes}
+           \cup {M("empty", <<>>, "none"), M("empty", <<<<2, 5>>, <<4, 1>>>>, "past")}
            \cup {M(m, <<>>, "none") : m \in {"bigM_m1", "bigM_0", "bigM_p1"}}
            \cup {M("small", <<<<65535, 1>>>>, "none"), M("small", <<<<0, 65535>>>>, "future")}
-Q_Contexts == {<< <<>>, <<>> >>, << <<NL>>, <<>> >>, << <<>>, <<NM>> >>, << <<NM>>, <<NL>> >>}
+(* quick: alone, and second of three -- a legacy subject after a legacy frame (so that the legacy-only  *)
+(* entry point reaches it), a metadata subject after a metadata frame                                 *)
+Q_Contexts == {<< <<>>, <<>> >>, << <<NM>>, <<NL>> >>, << <<NL>>, <<NM>> >>}
+Q_CtxOk(f, x) == x[1] = <<>> \/ (f.fmt = "legacy" /\ x[1] = <<NL>>) \/ (f.fmt = "meta" /\ x[1] = <<NM>>)
+All_CtxOk(f, x) == TRUE
 
 T_Shapes == Q_Shapes \cup { <<<<<<0, 0>>>>, "none">>, <<<<<<5, 5>>, <<5, 0>>>>, "none">>, <<<<<<1, 1>>, <<2, 2>>>>, "past">> }
 T_Bases == Q_Bases \cup {M0("nested")} \cup {M(m, s[1], s[2]) : m \in {"empty", "small", "nested"}, s \in T_Shapes}
            \cup {M("nested", <<<<65535, 65535>>>>, "future"), M("empty", <<<<1, 1>>, <<65535, 0>>>>, "none")}
-T_Contexts == Q_Contexts \cup {<< <<NL, NM>>, <<>> >>, << <<>>, <<NM, NL>> >>, << <<NM>>, <<>> >>, << <<>>, <<NL>> >>}
+T_Contexts == Q_Contexts \cup {<< <<NL>>, <<>> >>, << <<>>, <<NM>> >>, << <<NL, NM>>, <<>> >>, << <<>>, <<NM, NL>> >>, << <<NM>>, <<>> >>, << <<>>, <<NL>> >>}
 
 C_U32 == {"m1", "p1", "zero", "c7", "c8", "c11", "c12", "maxm1", "max", "maxp1", "huge"}
 C_U16 == {"m1", "p1", "zero", "ffff"}
